@@ -197,6 +197,28 @@ func (c *Ctx) own(which map[string]bool) {
 			}
 			c.checkSites("OWN-3", "write("+t.key+")", sites, t.allow, t.why, t.min)
 		}
+		// the settings are read only once the client exists (the path engine
+		// relies on it: loads of Client.Config fields are taken to be stable)
+		nCfg := 0
+		c.eachInstr(func(fn *ssa.Function, ins ssa.Instruction) {
+			st, ok := ins.(*ssa.Store)
+			if !ok {
+				return
+			}
+			r := pathx.RoleOfAddr(st.Addr)
+			if !strings.HasPrefix(r.Path, "Client.Config.") && r.Path != "Client.Config" {
+				return
+			}
+			nCfg++
+			name := load.FuncName(load.TopLevel(fn))
+			key := "OWN-3|write(Client.Config)|in(" + name + ")"
+			if name == "newClient" {
+				c.S.OK("OWN-3", key, c.P.Pos(st.Pos()), name, "the settings are installed by the constructor", false)
+			} else {
+				c.S.Bad("OWN-3", key, c.P.Pos(st.Pos()), name, "a setting of a live client is modified: Config is documented read only, and every rule that compares two reads of a setting relies on it", nil)
+			}
+		})
+		c.S.Floor("OWN-3", "stores to Client.Config", nCfg, 1)
 		// no address of a guarded field escapes to a foreign callee
 		esc := 0
 		c.eachInstr(func(fn *ssa.Function, ins ssa.Instruction) {
